@@ -170,3 +170,15 @@ contract("iface::Dest.__call__", params=["self", "message"], returns="Any",
          ensures=[("offer-recorded", "OFFERS == old(OFFERS) + [Ev('offer', self, message, False)]"), ("io-grows", "prefix_of(old(IO), IO)")],
          raises=[{"cls": "Exception", "ensures": [("offer-recorded", "OFFERS == old(OFFERS) + [Ev('offer', self, message, True, exc)]"),
                                                   ("io-grows", "prefix_of(old(IO), IO)")]}])
+
+fields("Field", key="Any", description="Any", _serializer="role:Serializer", _extraValidator="Opt[role:Validator]")
+fields("_MessageSerializer", fields="dict[Field]", allow_additional_fields="bool")
+fields("MessageType", message_type="Any", description="Any", _serializer="_MessageSerializer")
+
+for _role in ("Serializer", "Validator"):
+    contract("iface::%s.__call__" % _role, params=["self", "input"], returns="Any",
+             notes="a field %s function supplied by the application: returns anything or raises any BaseException; arbitrary and "
+                   "possibly non-idempotent; does not touch Eliot's objects or the message dictionary" % _role.lower(),
+             modifies=["#CALLS"],
+             ensures=[("recorded", "CALLS == old(CALLS) + [Ev('ret', self, input, None, result)]")],
+             raises=[{"cls": "BaseException", "ensures": [("recorded", "CALLS == old(CALLS) + [Ev('exc', self, input, None, exc)]")]}])
